@@ -37,8 +37,8 @@ class Snap:
         self.ea = [Ev(e.t, e.m.copy()) for e in ea]
 
     def same(self, other):
-        return and_(events_eq_positionwise(self.er, other.er), eq(self.dr, other.dr),
-                    events_eq_positionwise(self.ea, other.ea), eq(self.da, other.da))
+        return and_(events_eq_multiset_timed(self.er, other.er), eq(self.dr, other.dr),
+                    events_eq_multiset_timed(self.ea, other.ea), eq(self.da, other.da))
 
     def views_agree(self):
         return and_(events_eq_multiset_timed(self.er, self.ea), eq(self.dr, self.da))
